@@ -12,9 +12,12 @@ func init() {
 }
 
 func decConfigs(c *core.Check) []map[string]string {
-	cfgs := []map[string]string{{"MaxSpecD": "1", "MaxItems": "2"}, {"MaxSpecD": "2", "MaxItems": "1"}}
+	all := "\"all\""
+	cfgs := []map[string]string{{"MaxSpecD": "1", "MaxItems": "2", "ItemMode": all}, {"MaxSpecD": "2", "MaxItems": "1", "ItemMode": all},
+		// three items from a small pool: the interplay of several blocks of one type
+		{"MaxSpecD": "1", "MaxItems": "3", "ItemMode": "\"few\""}}
 	if c.Tier == "thorough" {
-		cfgs = []map[string]string{{"MaxSpecD": "2", "MaxItems": "2"}}
+		cfgs = []map[string]string{{"MaxSpecD": "2", "MaxItems": "2", "ItemMode": all}, {"MaxSpecD": "2", "MaxItems": "3", "ItemMode": "\"few\""}}
 	}
 	c.Extra["constants"] = cfgs
 	return cfgs
